@@ -67,6 +67,18 @@ func (ff *FuncFacts) PhiIneqs() []*Affine {
 // invariants of monotone phis and extra facts.
 func (ff *FuncFacts) ProveGE(b *ssa.BasicBlock, x, y *Affine, k int64, extra ...Fact) bool {
 	fs := append(append(FactSet{}, ff.AtRefined(b)...), extra...)
+	// in a loop-free function every term denotes one value, so the facts that
+	// hold at b may be assumed while looking for more facts: a join in front of
+	// b keeps the facts of the one branch that is consistent with them.
+	if !ff.hasLoop() && len(ff.removed) == 0 && len(fs) > 0 {
+		if pf := ff.Prune(fs...); pf.Reachable(b) {
+			for _, f := range pf.AtRefined(b) {
+				if !fs.Has(f) {
+					fs = append(fs, f)
+				}
+			}
+		}
+	}
 	fs = append(fs, ff.Assume...)
 	for _, im := range ff.Implications {
 		if fs.Has(im.If) {
@@ -239,6 +251,9 @@ func Var(term string, nonNeg bool) *Affine {
 
 // LenOf returns the affine form of len(x).
 func (t *Terms) LenOf(x ssa.Value) *Affine {
+	if ms, ok := x.(*ssa.MakeSlice); ok {
+		return t.Affine(ms.Len) // len(make([]T, n)) == n
+	}
 	return Var("len("+t.Of(x)+")", true)
 }
 
